@@ -15,6 +15,13 @@ package handlers
 //@   ensures ghost.lookedUp == seqof(user)
 //@   ensures a != nil ==> a.Authenticate != nil && a.Authorizer != nil && a.Accounting != nil
 
+// The per-scope entry handler is a NEW object holding exactly the scope's user set; the
+// factory itself is not changed (C09 / C10 / C13: scopes do not share a handler).
+//@ func (s *Start) New(ctx context.Context, c config.Provider, options map[string]string) (res tq.Handler)
+//@   requires s != nil
+//@   ensures[C09,C10,C13] typeOf(res) == *Start && fresh(res.(*Start)) && res.(*Start) != s
+//@   ensures[C09,C10,C13] res.(*Start).loggerProvider == s.loggerProvider
+
 //@ func (s *Start) Handle(response tq.Response, request tq.Request)
 //@   implements tq.Handler.Handle
 //@   before[C09] AuthenticateStart.Handle : fresh(arg0) && arg1 == response && arg2.Header == request.Header && arg2.Body == request.Body
